@@ -69,6 +69,9 @@ def check_tables(m, viol, desc, after):
     for g, rows in m.groups.items():
         if any(not (0 <= int(i) < n) for i in rows):
             bad.append(f"group {g} refers to a row that does not exist")
+    ntrain = sum(len(np.asarray(list(p.values())[0]).reshape(-1)) for p in m.trainable_params)
+    if int(m.num_trainable_params) != ntrain or len(m.indices_set_by_trainables) != len(m.trainable_params):
+        bad.append(f"num_trainable_params = {m.num_trainable_params} but the trainable parameters hold {ntrain} values")
     for inds, p in zip(m.indices_set_by_trainables, m.trainable_params):
         key = list(p)[0]
         lim = ne if key in m.edges.columns else n
@@ -130,6 +133,18 @@ def run(ctx):
            "delete_stimuli", "delete_clamps", "make_trainable", "delete_trainables", "init_states"]
 
     def apply(cell, op, rng):
+        """apply one operation; a refused operation must leave the module untouched"""
+        snap = simlib.snapshot(cell)
+        nrows = len(cell.nodes)
+        txt = apply_(cell, op, rng)
+        if txt is not None and "(refused" in txt:
+            changed = simlib.diff_snap(snap, simlib.snapshot(cell))
+            if changed or len(cell.nodes) != nrows:
+                viol.append({"kind": "a refused operation modified the module", "operation": txt, "changed": changed,
+                             "parents": [int(x) for x in cell.comb_parents], "counts": [int(x) for x in cell.ncomp_per_branch]})
+        return txt
+
+    def apply_(cell, op, rng):
         n = len(cell.nodes)
         rows = sorted(rng.sample(range(n), rng.randint(1, n)))
         view = cell.select(nodes=rows) if rng.random() < 0.8 else cell
@@ -157,6 +172,15 @@ def run(ctx):
                     return None
                 b = rng.randrange(len(cell.comb_parents))
                 k = rng.randint(1, 3)
+                if len(cell.comb_parents) >= 3 and rng.random() < 0.3:
+                    # several branches at once (not all of them): refused, never half done
+                    bs = sorted(rng.sample(range(len(cell.comb_parents)), 2))
+                    txt = f"branch({bs}).set_ncomp({k})"
+                    try:
+                        cell.branch(bs).set_ncomp(k)
+                    except (AssertionError, ValueError, KeyError, IndexError) as ex:
+                        return txt + " (refused: " + type(ex).__name__ + ")"
+                    return txt
                 txt = f"branch({b}).set_ncomp({k})"
                 try:
                     cell.branch(b).set_ncomp(k)
@@ -179,15 +203,64 @@ def run(ctx):
             elif op == "delete_clamps":
                 view.delete_clamps()
             elif op == "make_trainable":
-                if isinstance(view, type(cell)) and view is cell:
-                    cell.make_trainable("radius")
-                else:
-                    view.make_trainable("radius")
+                key = rng.choice(["radius", "length", "v"] + [k for c in cell.channels for k in list(c.channel_params)[:1] + list(c.channel_states)[:1]])
+                txt += f" {key}"
+                try:
+                    view.make_trainable(key)
+                except (KeyError, AssertionError, ValueError):
+                    return txt + " (refused)"
             elif op == "delete_trainables":
+                # independent expectation: every group loses exactly the rows of the view
+                inview = set(rows) if view is not cell else set(range(n))
+                want = []
+                for inds, p in zip(cell.indices_set_by_trainables, cell.trainable_params):
+                    k = list(p)[0]
+                    groups = [[int(i) for i in g if int(i) not in inview and int(i) >= 0] for g in np.asarray(inds).tolist()]
+                    groups = [sorted(set(g)) for g in groups if g]
+                    if groups:
+                        want.append((k, sorted(groups)))
                 view.delete_trainables()
+                got = []
+                for inds, p in zip(cell.indices_set_by_trainables, cell.trainable_params):
+                    groups = [sorted(set(int(i) for i in g if int(i) >= 0)) for g in np.asarray(inds).tolist()]
+                    groups = [g for g in groups if g]
+                    if groups:
+                        got.append((list(p)[0], sorted(groups)))
+                if sorted(got) != sorted(want):
+                    viol.append({"kind": "delete_trainables through a view did not remove exactly the trainables of the view",
+                                 "rows_in_view": sorted(inview), "expected": sorted(want), "got": sorted(got),
+                                 "parents": [int(x) for x in cell.comb_parents], "counts": [int(x) for x in cell.ncomp_per_branch]})
             elif op == "init_states":
                 cell.init_states()
         return txt
+
+    # refused set_ncomp calls (several branches at once, whole cell) leave the module untouched
+    for counts0 in ([2, 2, 2], [1, 3, 2, 2]):
+        try:
+            with quiet():
+                c3 = jx.Cell([jx.Branch([comp] * k) for k in counts0], parents=[-1, 0, 0, 1][: len(counts0)])
+                c3.insert(channels()[1]())
+                c3.branch(1).add_to_group("g1")
+            snap = simlib.snapshot(c3)
+            for sel in ([1, 2], [0, 1], "all"):
+                evals += 1
+                try:
+                    with quiet():
+                        c3.branch(sel).set_ncomp(3)
+                    accepted = True
+                except Exception:
+                    accepted = False
+                if not accepted:
+                    ch = simlib.diff_snap(snap, simlib.snapshot(c3))
+                    if ch or [int(x) for x in c3.ncomp_per_branch] != counts0:
+                        viol.append({"kind": "a refused operation modified the module", "operation": f"branch({sel}).set_ncomp(3)", "counts": counts0,
+                                     "changed": ch, "ncomp_per_branch": [int(x) for x in c3.ncomp_per_branch], "rows": len(c3.nodes)})
+                        break
+                else:
+                    check_tables(c3, viol, {"counts": counts0}, f"branch({sel}).set_ncomp(3)")
+                    break
+        except Exception as ex:
+            viol.append({"kind": "refusal test raised", "error": repr(ex)[:300]})
 
     nhist = ctx.budget(14, 120)
     for hi in range(nhist):
@@ -330,7 +403,7 @@ def run(ctx):
     for v in viol:
         v.setdefault("finding_class", None)
     return {"evaluations": evals, "distinct_nontrivial": len(distinct),
-            "rule": "random histories (depth 2..7/12) over 14 operations on random views of irregular cells, the first ones seeded with shared-column patterns (Na/K vt, K/Km eK and i_K, CaL/CaT eCa) on the whole module and on disjoint views (the channel is deleted through a view that does not contain its partner): after EVERY operation contiguity, channel registry, parameters-where-channel, currents, and the row references of recordings/inputs/groups/trainables are checked on the public tables; then integrate is compared with a module rebuilt from the tables only; insert+delete round trips for every channel; network histories with synaptic recordings and view-level deletions; distinct by (cell, history)",
+            "rule": "random histories (depth 2..7/12) over 14 operations (make_trainable on geometric keys, v, channel parameters and states; delete_trainables through views against an independent expectation) on random views of irregular cells, the first ones seeded with shared-column patterns (Na/K vt, K/Km eK and i_K, CaL/CaT eCa) on the whole module and on disjoint views (the channel is deleted through a view that does not contain its partner): after EVERY operation contiguity, channel registry, parameters-where-channel, currents, and the row references of recordings/inputs/groups/trainables are checked on the public tables; then integrate is compared with a module rebuilt from the tables only; insert+delete round trips for every channel; network histories with synaptic recordings and view-level deletions; distinct by (cell, history)",
             "samples": samples, "violations": viol[:20]}
 
 
